@@ -55,7 +55,12 @@ def oracle(rep, p, prof, oc, rng):
         q = dict(p); q["holds"] = list(p["holds"]); rng.shuffle(q["holds"]); q["container"] = rng.choice(["list", "tuple"])
         prof2 = np.asarray(gen_opcond.build(q, oc).tempProfile(dt), dtype=float)
         if len(prof2) != len(prof) or (np.abs(prof2 - prof) > eps).any():
-            rep.violation("order-dependence equal-temps" if not distinct else "order-dependence",
+            # the known finding is precisely: equal hold temperatures, same length, and every sample equals a neighbouring sample of the
+            # other profile (a plateau one sample longer or shorter)
+            shift_only = len(prof2) == len(prof) and all(
+                min(abs(prof2[i] - prof[j]) for j in (max(i - 1, 0), i, min(i + 1, len(prof) - 1))) <= eps for i in range(len(prof) - 1)) \
+                and abs(prof2[-1] - prof[-1]) <= p["rate"] * dt + eps
+            rep.violation("order-dependence equal-temps" if (not distinct and shift_only) else "order-dependence",
                           "profile depends on the listed order of the holds: %s vs %s" % (p["holds"], q["holds"]),
                           dict(program=p, reordered=q["holds"]))
     if near_tie(p):
